@@ -345,6 +345,9 @@ Loop:
 				return zerr.UnexpectedParamWildcard()
 			}
 		default:
+			if idx >= len(values) {
+				return zerr.LeastParamsError(idx + 1)
+			}
 			if err := validateOneParam(values[idx], t); err != nil {
 				return err
 			}
